@@ -51,6 +51,71 @@ def degree_in(e, targets):
     return (0, False)
 
 
+def poly_of(e):
+    """Exact polynomial normal form {monomial: Fraction} (monomial = sorted tuple of (name, exponent)) of an expression built from
+    variables, numbers, sums, products, powers with a constant non-negative integer exponent and quotients by (non-zero) constants;
+    None outside that fragment."""
+    import pymbolic.primitives as p
+
+    def mul(f, g):
+        out = {}
+        for m1, c1 in f.items():
+            for m2, c2 in g.items():
+                ex = dict(m1)
+                for n, k in m2:
+                    ex[n] = ex.get(n, 0) + k
+                m = tuple(sorted(ex.items()))
+                out[m] = out.get(m, 0) + c1 * c2
+        return {m: c for m, c in out.items() if c != 0}
+    if isinstance(e, bool):
+        return None
+    if isinstance(e, (int, Fraction)):
+        return {(): Fraction(e)} if e != 0 else {}
+    if isinstance(e, p.Variable):
+        return {((e.name, 1),): Fraction(1)}
+    if isinstance(e, p.Sum):
+        out = {}
+        for c in e.children:
+            f = poly_of(c)
+            if f is None:
+                return None
+            for m, k in f.items():
+                out[m] = out.get(m, 0) + k
+        return {m: c for m, c in out.items() if c != 0}
+    if isinstance(e, p.Product):
+        out = {(): Fraction(1)}
+        for c in e.children:
+            f = poly_of(c)
+            if f is None:
+                return None
+            out = mul(out, f)
+        return out
+    if isinstance(e, p.Power):
+        if isinstance(e.exponent, int) and not isinstance(e.exponent, bool) and 0 <= e.exponent <= 6:
+            f = poly_of(e.base)
+            if f is None:
+                return None
+            out = {(): Fraction(1)}
+            for _ in range(e.exponent):
+                out = mul(out, f)
+            return out
+        return None
+    if isinstance(e, p.Quotient):
+        f, g = poly_of(e.numerator), poly_of(e.denominator)
+        if f is None or g is None or list(g) != [()]:
+            return None
+        return {m: c / g[()] for m, c in f.items()}
+    return None
+
+
+def semantic_affine(e, targets):
+    """True / False when e lies in poly_of's fragment (affine in the targets as a function), None otherwise."""
+    f = poly_of(e)
+    if f is None:
+        return None
+    return all(sum(k for n, k in m if n in targets) <= 1 for m in f)
+
+
 def bounded(tier, seed, procs):
     import pymbolic.primitives as p
     from pymbolic.algorithm import solve_affine_equations_for
@@ -77,6 +142,10 @@ def bounded(tier, seed, procs):
     ex += [p.Quotient(p.Sum((x, y, 3)), 4), p.Product((2, p.Product((3, p.Product((x, 5)))))), p.Quotient(p.Product((3, x)), p.Product((2, 2))),
            p.Sum((p.Product((2, x)), p.Product((3, x)), 1)), p.Sum((x, p.Product((-1, x)))), p.Product((x, x)), p.Product((x, y)), p.Quotient(1, x),
            p.Power(x, 2), p.Power(2, x), p.Power(2, 3), p.Sum((p.Power(y, 2), x)), p.Product((p.Power(y, 2), x))]
+    # affine as functions, not syntactically: explicit first / zeroth powers, cancelling higher-order terms, zero coefficients
+    ex += [p.Power(x, 1), p.Power(x, 0), p.Power(p.Sum((x, 1)), 1), p.Sum((p.Power(x, 1), y)), p.Product((2, p.Power(x, 1))), p.Product((p.Power(x, 0), x)),
+           p.Product((p.Sum((x, p.Product((-1, x)), 2)), x)), p.Sum((p.Product((x, x)), p.Product((-1, x, x)), x)), p.Product((p.Sum((x, p.Product((-1, x)))), p.Sum((x, 1)))),
+           p.Sum((p.Power(x, 2), p.Product((-1, p.Power(x, 2))), y)), p.Product((p.Power(y, 1), x)), p.Product((0, x, x)), p.Quotient(p.Product((x, 2)), 2)]
     ex = trees.dedup(ex)
     pts = [dict(x=vx, y=vy, z=vz) for vx, vy, vz in itertools.product([Fraction(2), Fraction(-1, 2), Fraction(5)], [Fraction(3), Fraction(-2), Fraction(1, 3)], [Fraction(1), Fraction(7), Fraction(-3)])]
     for e in ex:
@@ -86,6 +155,12 @@ def bounded(tier, seed, procs):
             eff_targets = tset & present if tn is not None else present
             deg, bad = degree_in(e, eff_targets)
             affine = deg <= 1 and not bad
+            # the statement speaks of expressions that ARE affine in the targets (as functions): inside the polynomial fragment this is decided
+            # exactly from the normal form; the syntactic test above is its stand-in outside the fragment
+            sem = semantic_affine(e, eff_targets)
+            disguised = sem is True and not affine
+            if sem is not None:
+                affine = sem
             r = outcome.run(lambda: CoefficientCollector(tn)(e))
             b.case((repr(e), repr(tn)), nontrivial=bool(eff_targets), sample=dict(expr=repr(e), targets=tn, affine=affine))
             why = None
@@ -116,7 +191,7 @@ def bounded(tier, seed, procs):
                 elif not issubclass(r[1], (RuntimeError, AssertionError)):
                     why = f"non-affine input rejected with {r[1].__name__} (not the refusal error)"
             if why:
-                b.fail(Failure("coefficients", f"affine={affine} targets={tn} expr={e!r} why={why}", dict(kind="coeff", expr=trees.src(e), targets=tn), expected="exact affine form or refusal",
+                b.fail(Failure("coefficients", f"{'cause=affine-in-disguise ' if disguised and r[0] != 'val' else ''}affine={affine} targets={tn} expr={e!r} why={why}", dict(kind="coeff", expr=trees.src(e), targets=tn), expected="exact affine form or refusal",
                                actual=why, functions=["CoefficientCollector.map_sum", "map_product", "map_quotient", "map_power", "map_algebraic_leaf"]))
     # subscripted target variables
     b_sub = BoundedRun("coefficients-subscripts", rule="subscripted variables as leaves (targets given as aggregate names and as None)", bound="6 expressions",
